@@ -94,6 +94,10 @@ def eval_concat(case):
     ta, pa = a.base_str, per_char(a)
     if isinstance(b, str) and not isinstance(b, AnsiStr):
         tb, pb = b, [()] * len(b)
+        if '\x1b' in b:
+            # a plain str operand is read like a constructor argument (documented): its own text / settings are those
+            own = AnsiString(b)
+            tb, pb = own.base_str, per_char(own)
         bdesc = repr(b)
     else:
         tb, pb = b.base_str, per_char(b)
@@ -125,7 +129,7 @@ def eval_concat(case):
     check_concat(o, j, ta, pa, tb, pb, 'join(%s, %s)' % (describe(a), bdesc), cls)
     lab = seam_label(pa, pb)
     o.label(lab, 'right:' + ('self' if b is a else type(b).__name__))
-    o.nontrivial = lab in ('seam:equal', 'seam:permuted', 'seam:prefix', 'seam:overlap', 'seam:different')
+    o.nontrivial = lab in ('seam:equal', 'seam:permuted', 'seam:prefix', 'seam:overlap', 'seam:different') or bool(case.get('splitseq'))
     o.key = [ta, pa, tb, pb, cls]
     return o
 
@@ -212,6 +216,7 @@ def strat_concat():
         gen.progs(CFG).map(lambda p: {'k': 'prog', 'p': p}),
         gen.progs(CFG).map(lambda p: {'k': 'prog', 'p': p}),
         gen.texts(0, 4, nonascii=True).map(lambda t: {'k': 'str', 't': t}),
+        st.lists(st.sampled_from(['a', 'b', '1', 'm', '[', '\x1b', '\x1b[', '1m', '31m', ';4m', '\x1b[1m', '\x1b[m', 'def']), max_size=4).map(lambda l: {'k': 'str', 't': ''.join(l)}),
         st.just({'k': 'self'}),
         st.integers(0, 3).map(lambda i: {'k': 'bad', 'i': i}),
     )
@@ -293,6 +298,30 @@ def enum_seam_small(tier):
                                    'b': {'k': 'prog', 'p': {'cls': 'S', 'ctor': {'k': 'ranges', 't': 'de', 'r': rb}, 'ops': []}}}
 
 
+@st.composite
+def strat_splitseq(draw):
+    """the left operand's text ends with the beginning of an escape sequence and the right operand's text starts with the
+    rest: each operand keeps its own text (nothing is parsed across the seam), formatted or not"""
+    pre = draw(st.sampled_from(['\x1b', '\x1b[', '\x1b[3', '\x1b[1;', '\x1b[38;5', 'a\x1b[m\x1b[']))
+    rest = draw(st.sampled_from(['[1m', '1m', 'm', '4mdef', ';31mx', '[m', ';9m', '0m', 'K', '2K']))
+    ta = draw(st.sampled_from(['', 'abc', 'a'])) + pre
+    tb = rest + draw(st.sampled_from(['', 'def', 'z']))
+    def rng(n):
+        if n == 0 or draw(st.integers(0, 2)) == 0:
+            return []
+        a_ = draw(st.integers(0, n - 1))
+        return [{'s': [{'k': 'name', 'v': draw(st.sampled_from(['red', 'bold', 'underline']))}], 'a': a_,
+                 'b': draw(st.one_of(st.none(), st.integers(a_ + 1, n))), 'top': True}]
+    a = {'cls': draw(st.sampled_from(['S', 'S', 's'])), 'ctor': {'k': 'ranges', 't': ta, 'r': rng(len(ta))}, 'ops': []}
+    if draw(st.integers(0, 2)) == 0:
+        a['ops'] = [{'op': 'clear'}]
+    if draw(st.booleans()):
+        b = {'k': 'str', 't': tb}
+    else:
+        b = {'k': 'prog', 'p': {'cls': draw(st.sampled_from(['S', 's'])), 'ctor': {'k': 'ranges', 't': tb, 'r': rng(len(tb))}, 'ops': []}}
+    return {'a': a, 'b': b, 'splitseq': True}
+
+
 def strat_join():
     # plain str arguments may carry escape sequences here (also unterminated ones / styles left open): join must still
     # equal the left fold of +, whatever each str parses to
@@ -365,6 +394,8 @@ SUBS = [
     Sub('concat', eval_concat, strategy=strat_concat, quick=300, thorough=5000),
     Sub('seam', eval_concat, strategy=strat_seam, quick=1200, thorough=12000,
         rule='seam-forcing generator: related settings on both sides of the seam'),
+    Sub('split_sequence', eval_concat, strategy=strat_splitseq, quick=60, thorough=1500,
+        rule='the left text ends with the beginning of an escape sequence, the right text starts with the rest'),
     Sub('seam_small_exhaustive', eval_concat, enumerate=enum_seam_small,
         exhaustive_note='all left operands built from <=3 applications of {red, blue, bold} ending at the seam x all right operands starting with <=3 of them (every stop vector in {1,2}^n for the merged configurations)'),
     Sub('join', eval_join, strategy=strat_join, quick=150, thorough=2500),
